@@ -479,6 +479,7 @@ fn lines() {
         let line = line.trim_end_matches(['\r', '\n']);
         if line.is_empty() {
             writeln!(out).unwrap();
+            out.flush().unwrap();
             continue;
         }
         match catch_unwind(AssertUnwindSafe(|| run_line(line))) {
@@ -486,6 +487,8 @@ fn lines() {
             Ok(Err(e)) => writeln!(out, "BADCASE {e}").unwrap(),
             Err(_) => writeln!(out, "panic").unwrap(),
         }
+        // one answer per query, delivered at once: the driver (core.run_lines) may wait for it before sending the next
+        out.flush().unwrap();
     }
     out.flush().unwrap();
 }
